@@ -334,6 +334,9 @@ func checkC04(c *Ctx) {
 			bad := []string{}
 			for _, a := range ds.guards() {
 				as := a.String()
+				if isExpandedHelperAtom(p, a) {
+					continue // its meaning is listed next to it
+				}
 				if common[as] {
 					continue
 				}
@@ -403,6 +406,9 @@ func checkC04(c *Ctx) {
 				bad := []string{}
 				for _, a := range s.atoms() {
 					as := a.String()
+					if isExpandedHelperAtom(p, a) {
+						continue // its meaning is listed next to it
+					}
 					if commonE[as] {
 						continue
 					}
